@@ -21,6 +21,15 @@ func propC16(c *Ctx, r *Report) {
 	r.floor("names.sanitize.returns", 10)
 	r.Clauses = append(r.Clauses, "fresh names (E19 provenance): every spelling stored into a writer's entity-name table (types, members, functions, arguments, locals, globals, entry points, baked expressions, flattened entry-point parameters) comes from the namer, from another name table, or from one of the generated spellings frozen per table - never directly from an IR name or from a table of another scope")
 	c.runNameFresh(r, "names.fresh", inPkgs("hlsl", "msl", "glsl"))
+	r.Clauses = append(r.Clauses, "invented names (E66): a name the writer invents with an identifier-shaped format string ends in a digit or underscore, or goes through the namer, or starts with a prefix the namer reserves (literals / a table consulted with strings.HasPrefix in functions reachable from the namer); the GLSL namer reserves gl_")
+	for _, p := range []string{"glsl", "hlsl", "msl"} {
+		var req []string
+		if p == "glsl" {
+			req = []string{"gl_"}
+		}
+		c.runGenFormatReq(r, "names.genformat", p+"/internal/codegen", genFormatExceptions, req)
+	}
+	r.floor("names.genformat", 4)
 	r.Clauses = append(r.Clauses, rawNamesClause)
 	c.runRawNames(r, "names.rawuse", inPkgs("hlsl", "msl", "glsl"), rawNameExceptions)
 	r.floor("names.rawuse", 1)
@@ -154,4 +163,9 @@ func propC02(c *Ctx, r *Report) {
 	r.floor("tables.OpCode", 150)
 	r.floor("tables.Capability", 20)
 	r.floor("tables.StorageClass", 10)
+}
+
+var genFormatExceptions = map[string]string{
+	"hlsl/internal/codegen.Writer.samplerBindingArrayInfoFromExpression:nagaGroup%dSamplerIndexArray#1": "re-spelling, at a use, of the name that writeSamplerIndexBuffer obtains from the namer; the naga prefix is reserved (names.helpers)",
+	"msl/internal/codegen.wrappedMathSuffix:vec%d_%s#1":                                                  "a suffix appended to a reserved naga_ helper name, never a name of its own",
 }
